@@ -34,27 +34,42 @@ Variable bs : N.
 
 Notation pblock := (process_block hash compress).
 
+(* what the specification remembers besides its output: the blocks consumed so far, the fragment
+   references handed out (inode, index, offset) and the sparse tail ends (inode, block index) *)
+Record obslog := mkLog {
+  ol_src : list blk;
+  ol_glog : list (N * N * N);
+  ol_sflog : list (N * N)
+}.
+
 Record sp := mkSp {
   sp_frag : option blk;     (* the fragment block being filled *)
   sp_ht : HT;
   sp_nft : N;               (* fragment table entries allocated so far *)
-  sp_out : list blk         (* blocks in I/O order *)
+  sp_out : list blk;        (* blocks in I/O order *)
+  sp_log : obslog
 }.
 
-Definition sp_init (ht0 : HT) : sp := mkSp None ht0 0 [].
+Definition sp_init (ht0 : HT) : sp := mkSp None ht0 0 [] (mkLog [] [] []).
+
+Definition log_g (l : obslog) (e : N * N * N) : obslog := mkLog (ol_src l) (ol_glog l ++ [e]) (ol_sflog l).
+Definition log_sf (l : obslog) (e : N * N) : obslog := mkLog (ol_src l) (ol_glog l) (ol_sflog l ++ [e]).
+Definition log_src (l : obslog) (d : blk) : obslog := mkLog (ol_src l ++ [d]) (ol_glog l) (ol_sflog l).
 
 (* a processed tail end arrives *)
 Definition spec_frag (q : sp) (frag : blk) : sp :=
-  if bhas SPARSE frag then q
+  if bhas SPARSE frag then
+    mkSp (sp_frag q) (sp_ht q) (sp_nft q) (sp_out q) (log_sf (sp_log q) (b_ino frag, b_idx frag))
   else
     match (if bhas DD frag then None else ht_search (sp_ht q) frag) with
-    | Some _ => q
+    | Some (idx, off) =>
+      mkSp (sp_frag q) (sp_ht q) (sp_nft q) (sp_out q) (log_g (sp_log q) (b_ino frag, idx, off))
     | None =>
       let q1 :=
         match sp_frag q with
         | Some fb =>
           if bs <? len (b_data fb) + len (b_data frag)
-          then mkSp None (sp_ht q) (sp_nft q) (sp_out q ++ [pblock (with_seq fb (len (sp_out q)))])
+          then mkSp None (sp_ht q) (sp_nft q) (sp_out q ++ [pblock (with_seq fb (len (sp_out q)))]) (sp_log q)
           else q
         | None => q
         end in
@@ -62,33 +77,38 @@ Definition spec_frag (q : sp) (frag : blk) : sp :=
       | None =>
         let fb := with_fl (with_idx frag (sp_nft q1)) (setf FRAGBLK true (setf DC (bhas DC frag) no_flags)) in
         mkSp (Some fb) (ht_insert (sp_ht q1) frag (sp_nft q1, 0)) (sp_nft q1 + 1) (sp_out q1)
+             (log_g (sp_log q1) (b_ino frag, sp_nft q1, 0))
       | Some fb =>
         let fb' := with_fl (with_data fb (b_data fb ++ b_data frag)) (setf DC (bhas DC fb || bhas DC frag) (b_fl fb)) in
         mkSp (Some fb') (ht_insert (sp_ht q1) frag (b_idx fb, len (b_data fb))) (sp_nft q1) (sp_out q1)
+             (log_g (sp_log q1) (b_ino frag, b_idx fb, len (b_data fb)))
       end
     end.
 
 (* a block is submitted *)
 Definition spec_step (q : sp) (d : blk) : sp :=
   let d' := pblock d in
+  let q := mkSp (sp_frag q) (sp_ht q) (sp_nft q) (sp_out q) (log_src (sp_log q) d) in
   if bhas ISFRAG d' then spec_frag q d'
-  else mkSp (sp_frag q) (sp_ht q) (sp_nft q) (sp_out q ++ [with_seq d' (len (sp_out q))]).
+  else mkSp (sp_frag q) (sp_ht q) (sp_nft q) (sp_out q ++ [with_seq d' (len (sp_out q))]) (sp_log q).
 
 Definition spec_run (q : sp) (ds : list blk) : sp := fold_left spec_step ds q.
 
 (* finish: the last fragment block *)
 Definition spec_fin (q : sp) : sp :=
   match sp_frag q with
-  | Some fb => mkSp None (sp_ht q) (sp_nft q) (sp_out q ++ [pblock (with_seq fb (len (sp_out q)))])
+  | Some fb => mkSp None (sp_ht q) (sp_nft q) (sp_out q ++ [pblock (with_seq fb (len (sp_out q)))]) (sp_log q)
   | None => q
   end.
 
-(* the sequence of blocks written for a list of files *)
-Definition spec_blocks (ht0 : HT) (files : list file) : list blk :=
+Definition spec_final (ht0 : HT) (files : list file) : sp :=
   match fe_files bs fe_init 0 files with
-  | Ok (_, evs) => sp_out (spec_fin (spec_run (sp_init ht0) (dblocks evs)))
-  | _ => []
+  | Ok (_, evs) => spec_fin (spec_run (sp_init ht0) (dblocks evs))
+  | _ => sp_init ht0
   end.
+
+(* the sequence of blocks written for a list of files *)
+Definition spec_blocks (ht0 : HT) (files : list file) : list blk := sp_out (spec_final ht0 files).
 
 (* what the block writer makes of a sequence of blocks *)
 Section Writer.
@@ -103,3 +123,35 @@ Fixpoint bw_run (w : BW) (acc : list (blk * N)) (l : list blk) : BW * list (blk 
 End Writer.
 
 End Spec.
+
+(* ------------------------------------------------------------------ *)
+(* what the inodes and the fragment table look like, as functions of the specification's logs and the
+   write log alone (canonical order: sparse tail ends first, then the written blocks in I/O order) *)
+(* ------------------------------------------------------------------ *)
+Definition fref_of (glog : list (N * N * N)) (k : N) : N * N :=
+  fold_left (fun acc e => if k =? fst (fst e) then (snd (fst e), snd e) else acc) glog (U32MAX, U32MAX).
+
+Definition sf_blk (k : N) (l : list N) (e : N * N) : list N :=
+  if k =? fst e then upd_nth (N.to_nat (snd e)) 0 l else l.
+
+(* the effect of process_completed_block on extra[] of inode k *)
+Definition flush_blk (k : N) (l : list N) (b : blk) : list N :=
+  if k =? b_ino b then
+    if bhas SPARSE b then upd_nth (N.to_nat (b_idx b)) 0 l
+    else if negb (len (b_data b) =? 0) then
+      if bhas FRAGBLK b then l else upd_nth (N.to_nat (b_idx b)) (size_word b) l
+    else l
+  else l.
+
+Definition blocks_canon (sflog : list (N * N)) (ws : list blk) (k : N) : list N :=
+  fold_left (flush_blk k) ws (fold_left (sf_blk k) sflog []).
+
+(* the effect of process_completed_block on the fragment table *)
+Definition ftbl_apply (t : list (N * N)) (w : blk * N) : list (N * N) :=
+  if bhas SPARSE (fst w) then t
+  else if negb (len (b_data (fst w)) =? 0) then
+    if bhas FRAGBLK (fst w) then ftbl_set t (N.to_nat (b_idx (fst w))) (snd w, size_word (fst w)) else t
+  else t.
+
+Definition ftbl_canon (n : N) (ws : list (blk * N)) : list (N * N) :=
+  fold_left ftbl_apply ws (repeat (0, 0) (N.to_nat n)).
